@@ -5,15 +5,29 @@ HERE = os.path.dirname(os.path.dirname(os.path.abspath(__file__)))
 COMMON_NOTE = ("Trusted: Coq 8.16.1 kernel (vm_compute, no native_compute, no axioms: every theorem prints 'Closed under the global context'); "
                "extraction via ExtrOcamlBasic only; the hand-written Gallina model is tied to /repo's working tree by the correspondence runs "
                "(differential testing through harness/l1_harness.cpp and whole-program runs), not by a refinement proof. ")
+PROOF = "Coq proof over the hand-written Gallina model + extracted-model correspondence + property oracle on the implementation"
+CORR = "property oracle on whole-program / library runs + correspondence with the extracted Gallina model (theorems for this property are being added)"
 CHECKS = {
- "C02": dict(
-   text="Theorems over the model of locate_hunk/matches (all files, hunks, -F, -l, cursors): every placement is Admissible (not before the cursor, fuzz <= -F and <= context carried, non-ignored old lines match, -l relation = equality of norm_ws); the executable oracle spec_C02 is proved sound and proved to hold of the model; model tied to the code by L1 differential runs (random + exhaustive small scope) and the oracle is run on the implementation's answers.",
-   ref="DESIGN.md 5 C02", technique="Coq proof (induction over scans/fuzz levels; two-cursor loop vs norm_ws) + L1 correspondence + extracted oracle",
-   note="apply-level partition of output lines is tied by correspondence (APPLY cases) and stated in Properties_C04."),
- "C03": dict(
-   text="Theorems: locate_complete (any admissible placement within -F => not rejected), locate_min_fuzz, locate_exact_at_stated, insertion_at_stated, and model_meets_spec_C03 for the executable oracle; tie as C02.",
-   ref="DESIGN.md 5 C03", technique="Coq proof (forward+backward scans enumerate exactly [cursor, size)) + L1 correspondence + extracted oracle",
-   note=""),
+ "C01": dict(cat="proof", text="apply_conforming: for every conforming hunk list (any producer, context width, grouping) apply_patch on A yields exactly B, every hunk at its stated line, nothing rejected, no message - for all options without -R/-D/--verbose. Tied by L1 APPLY runs, L2 trees with the independent emitter (all formats, git create/delete/rename/copy/mode, strip levels, stdin) and real GNU diff / git diff output.", ref="DESIGN.md 5 C01", technique=PROOF, note="byte-level parser round trip is tied by correspondence (PARSE) only so far."),
+ "C02": dict(cat="proof", text="locate_sound / matches_spec / matches_ws_spec / ignored_lines_are_context / model_meets_spec_C02 over all files, hunks, -F, -l, cursors; apply-level placements judged by the extracted oracle spec_apply on the implementation's verbose report.", ref="DESIGN.md 5 C02", technique=PROOF, note=""),
+ "C03": dict(cat="proof", text="locate_complete, locate_min_fuzz, locate_exact_at_stated, insertion_at_stated, model_meets_spec_C03; tie as C02.", ref="DESIGN.md 5 C03", technique=PROOF, note=""),
+ "C04": dict(cat="proof", text="apply_patch_replay: the output is the replay of a verdict list over the hunks (nothing lost, duplicated, half applied), failed = number of rejected verdicts; apply_patch_verdicts / verdicts_are_admissible. Exit status, reject file existence and counts judged on whole-program runs.", ref="DESIGN.md 5 C04", technique=PROOF, note="the exit status equation of the driver is judged on runs and tied to Driver.v by correspondence, not yet a theorem."),
+ "C05": dict(cat="proof", text="reverse_hunk_involutive, conforming_reverse, apply_reverse (a diff of A to B applied with -R to B gives exactly A); apply-then-reverse histories on whole trees incl. create/delete/rename.", ref="DESIGN.md 5 C05", technique=PROOF, note="driver-level create/delete/rename reversal is judged on runs + correspondence."),
+ "C06": dict(cat="exploration", text="two-step histories apply / re-apply with -N, -t, -f judged on whole-program runs; Driver.v + Applier.v tied by correspondence.", ref="DESIGN.md 5 C06", technique=CORR, note=""),
+ "C07": dict(cat="exploration", text="ASan+UBSan build of the library and of the program on grammar-aware / blind mutations, extreme numbers, option mixes: no report, no signal, exit in {0,1,2}, diagnostic on 2; model class compared.", ref="DESIGN.md 5 C07", technique=CORR + " (sanitizer flavour)", note="partial: the standard library's own memory safety and code outside the model are only exercised."),
+ "C08": dict(cat="exploration", text="crafted and mutated patches <= 4 KiB with numbers up to 2^63-1, repeated/bodiless headers: termination within a fixed time and bounded output; model compared.", ref="DESIGN.md 5 C08", technique=CORR, note="partial: wall-clock limit, not an instruction count."),
+ "C09": dict(cat="exploration", text="a syntax error at every line of multi-file streams (exit 2 => every file original or after a whole number of hunks); SIGKILL before every system call touching the scenario (rename source intact or destination complete; with -b original at path or backup path).", ref="DESIGN.md 5 C09", technique=CORR + " + strace kill injection", note="partial: crash points at system-call granularity."),
+ "C10": dict(cat="exploration", text="every read/write/open/rename/unlink/chmod/mkdir/symlink/rmdir of the fault-free run that touches the scenario, failed once with EIO/ENOSPC/EACCES: exit 2 with a diagnostic, or identical to the fault-free run.", ref="DESIGN.md 5 C10", technique=CORR + " + strace fault injection", note="partial: stdio buffering is exercised, not modelled."),
+ "C11": dict(cat="exploration", text="streams of 1-4 sections in mixed formats with filler: parsing the concatenation = parsing the sections one by one, filler irrelevant; Parser.v tied on valid and mutated streams.", ref="DESIGN.md 5 C11", technique=CORR, note=""),
+ "C12": dict(cat="exploration", text="strip_path / parse_quoted_string / parse_file_line against an independent specification, exhaustively over {a,/}-paths and randomly over byte names; candidate order old/new/Index on trees.", ref="DESIGN.md 5 C12", technique=CORR, note=""),
+ "C13": dict(cat="exploration", text="hunks written as unified / context rejects and read back denote the same change; reject files of real runs hold exactly the failed hunks, shifted, and are readable by this tool and by GNU patch.", ref="DESIGN.md 5 C13", technique=CORR, note=""),
+ "C14": dict(cat="exploration", text="get_line classification exhaustively over {x,CR,LF} strings; LineWriter over all (mode x terminator) cases; conforming patches over LF/CRLF/mixed files under the four modes; final newline rule.", ref="DESIGN.md 5 C14", technique=CORR, note=""),
+ "C15": dict(cat="exploration", text="--dry-run: tree, modes and mtimes unchanged, nothing created, TMPDIR empty; exit status and per-hunk verdicts equal those of the real run on the same state.", ref="DESIGN.md 5 C15", technique=CORR, note=""),
+ "C16": dict(cat="exploration", text="bystander files (same basename elsewhere, same prefix, old .orig/.rej): only targets, their rejects/backups and created/emptied parents change; no temporary left.", ref="DESIGN.md 5 C16", technique=CORR, note=""),
+ "C17": dict(cat="exploration", text="modes preserved (or exactly the git new mode) with/without backup, rename/copy; refusals (read-only+fail, non-regular target, Prereq under --batch) leave bytes and mode untouched with non-zero status.", ref="DESIGN.md 5 C17", technique=CORR, note="runs as user nobody for real permission semantics."),
+ "C18": dict(cat="exploration", text="backup exists iff due, holds the pre-run bytes, named per -B/-z, pre-existing files untouched when none is due.", ref="DESIGN.md 5 C18", technique=CORR, note=""),
+ "C19": dict(cat="exploration", text="option table regenerated from options.cpp on every run (translator); every option x every spelling x every unambiguous prefix x bundles x operand positions give identical option records; bad command lines rejected with status 2 and no file touched; Cmdline.v compared on all.", ref="DESIGN.md 5 C19", technique="translator (gen_options_table.py) + " + CORR, note=""),
+ "C20": dict(cat="exploration", text="-D output evaluated by an independent #ifdef evaluator with SYM defined / undefined equals new / original, balanced, common lines once; Applier.v tied.", ref="DESIGN.md 5 C20", technique=CORR, note=""),
 }
 PENDING = {}
 for i in range(1, 21):
@@ -31,7 +45,7 @@ def main():
             evidence_file="evidence/%s.json" % pid,
             replay_cmd_template="./check %s --replay {path}" % pid,
             engine="coq-model+correspondence",
-            level_claimed=dict(category="proof", text=c["text"], design_ref=c["ref"]),
+            level_claimed=dict(category=c["cat"], text=c["text"], design_ref=c["ref"]),
             level_note=COMMON_NOTE + c["note"],
             technique=c["technique"]))
     m = dict(
